@@ -155,8 +155,11 @@ impl<T: Socket + ?Sized> Worker<T> {
         if check_response {
             self.check_response()?;
         }
+        let mut filled = true;
         loop {
-            let filled = window.fill()?;
+            if filled {
+                filled = window.fill()?;
+            }
 
             let mut retry_cnt = 0;
             let mut time = Instant::now() - (self.timeout + TIMEOUT_BUFFER);
